@@ -321,6 +321,26 @@ func (cmd AllocateRSChunkIDsCommand) apply(txn *state.Txn) AllocateRSChunkIDsRes
 }
 
 func (cmd CommitRSChunkCommand) apply(txn *state.Txn) core.Error {
+	// The packer stat'ed, packed and bumped every tract at NewVersion-1. If the
+	// stored version has moved since (a FixVersion or a re-replication got in
+	// between), writers may already hold the new version and the packed copy may
+	// be stale: refuse, the packer abandons this chunk and retries later.
+	// (Tract versions start at 1, so a real NewVersion is at least 2; callers
+	// that carry no version at all are left alone.)
+	for _, chunk := range cmd.Data {
+		for _, t := range chunk {
+			if t.NewVersion < 2 {
+				continue
+			}
+			infos, _, err := txn.GetTracts(t.ID.Blob, int(t.ID.Index), int(t.ID.Index)+1)
+			if err != core.NoError {
+				return err
+			}
+			if len(infos) != 1 || infos[0].Version+1 != t.NewVersion {
+				return core.ErrConflictingState
+			}
+		}
+	}
 	return txn.PutRSChunk(cmd.ID, cmd.Storage, cmd.Hosts, cmd.Data)
 }
 
